@@ -17,14 +17,24 @@ import rpload
 
 class Net(object):
     """in-memory pubsub network"""
-    def __init__(self):
+    def __init__(self, eager=False):
         self.subs  = {}      # url -> [cb]
         self.queue = []
         self.hops  = 0
+        self.eager = eager   # deliver as soon as something is published (subscriber threads keep up with the publisher)
+        self.busy  = False
+        self.quiet = True
     def subscribe(self, url, cb):
         self.subs.setdefault(url, []).append(cb)
+    def unsubscribe(self, url, cb):
+        if cb in self.subs.get(url, []):
+            self.subs[url].remove(cb)
     def put(self, url, topic, msg):
         self.queue.append((url, topic, copy.deepcopy(msg)))
+        if self.eager and not self.busy:
+            self.busy = True
+            try:     self.quiet = self.run() and self.quiet
+            finally: self.busy = False
     def run(self, limit=200):
         while self.queue:
             url, topic, msg = self.queue.pop(0)
@@ -54,10 +64,10 @@ def module_of(side):
     return eval(_MODEXPR['code'], {'os': _Os})
 
 
-def build(rp, nsides):
+def build(rp, nsides, eager=False):
     import radical.utils as ru
     from radical.pilot import constants as rpc
-    net = Net()
+    net = Net(eager)
 
     class Pub(object):
         def __init__(self, channel, url=None, **kw):
@@ -66,8 +76,10 @@ def build(rp, nsides):
             net.put(self.url, topic, msg)
     class Sub(object):
         def __init__(self, channel, topic=None, cb=None, url=None, **kw):
+            self.url, self.cb = url, cb
             net.subscribe(url, cb)
-        def stop(self): pass
+        def stop(self): net.unsubscribe(self.url, self.cb)
+    net.Pub = Pub
 
     old = (ru.zmq.Publisher, ru.zmq.Subscriber)
     ru.zmq.Publisher, ru.zmq.Subscriber = Pub, Sub
@@ -148,6 +160,70 @@ def monitor(nsides, side, msg, got, quiet):
         elif not fwd and n != 0:
             return ('unforwarded-message-leaked', 'side %d received %d copies of a local message' % (t, n))
     return None
+
+
+def run_close(rp, nsides, closer, terminate):
+    """the REAL Session.close() of side `closer` while all sides are still connected (forwarders of the real
+    _crosswire_proxy, deliveries made as soon as something is published).  The closing client has one pilot manager,
+    which - like the real one - sends a forwarded `cancel_pilots` request when it is closed with terminate.
+    Returns the messages published while closing and, per side, what its local control subscribers received."""
+    import radical.pilot.session as rs
+    from radical.pilot import constants as rpc
+    ch = rpc.CONTROL_PUBSUB
+    net, sessions = build(rp, nsides, eager=True)
+    got = {s: [] for s in range(nsides)}
+    for s in range(nsides):
+        net.subscribe('mem://%d/%s' % (s, ch), lambda t, m, s=s: got[s].append(m))
+    sess = sessions[closer]
+    published = []
+    pub = net.Pub(ch, url='mem://%d/%s' % (closer, ch))
+    class CtrlPub(object):
+        def put(self, topic, msg):
+            published.append(copy.deepcopy(msg)); pub.put(topic, msg)
+    class Mgr(object):
+        def close(self, terminate=True):
+            if terminate:
+                CtrlPub().put(ch, {'cmd': 'cancel_pilots', 'arg': {'pmgr': 'pmgr.0000', 'uids': ['pilot.1']}, 'fwd': True})
+    class Stub(object):
+        def __getattr__(self, name): return lambda *a, **k: None
+    sess._closed, sess._uid, sess._rep = False, 'session.verif', rpload.NullLog()
+    sess._close_options = rs._CloseOptions({'terminate': terminate, 'download': False})
+    sess._tmgrs, sess._pmgrs = {}, ({'pmgr.0000': Mgr()} if closer == 0 else {})
+    sess._cmgr = sess._proxy_client = sess._proxy = None
+    sess._ctrl_pub, sess._reg, sess._reg_service, sess._ctrl_sub = CtrlPub(), Stub(), Stub(), Stub()
+    sess._t_start = 0.0
+    sess.close()
+    return published, got, net.quiet
+
+
+def close_monitor(nsides, closer, published, got, quiet):
+    if not quiet:
+        return ('close:network-does-not-quiesce', 'hop budget exhausted')
+    for m in published:
+        if not m.get('fwd'): continue
+        for t in range(nsides):
+            n = len([x for x in got[t] if x.get('cmd') == m['cmd']])
+            if n != 1:
+                return ('close:forwarded-message-of-the-closing-side-delivered-%d-times' % n,
+                        '%s (fwd=True) published by the closing side %d: delivered %d times on side %d, expected once'
+                        % (m['cmd'], closer, n, t))
+    return None
+
+
+def close_cases(rp, ctx):
+    n = 0
+    for nsides in (2, 3, 4):
+        for closer in range(nsides):
+            for terminate in (True, False):
+                published, got, quiet = run_close(rp, nsides, closer, terminate)
+                n += 1
+                ctx.case({'close': [nsides, closer, terminate]}, nontrivial=bool(published))
+                bad = close_monitor(nsides, closer, published, got, quiet)
+                if bad:
+                    ctx.fail(bad[0], bad[1], {'close': {'nsides': nsides, 'closer': closer, 'terminate': terminate}},
+                             observed={'published': published, 'received': {str(k): [x.get('cmd') for x in v] for k, v in got.items()}})
+    ctx.obligation('real Session.close() with all sides connected (%d cases): what the closing side publishes with the forward flag '
+                   'reaches every side once' % n, 'tie', True, '')
 
 
 def run_advance(rp, cls_name, fwd, prof, state, nthings=1):
@@ -341,6 +417,7 @@ def run(ctx):
                             ctx.fail(bad[0], bad[1], {'nsides': nsides, 'side': side, 'msg': msg, 'channel': ch},
                                      observed={'deliveries': {str(k): len(v) for k, v in got.items()}, 'hops': hops})
     ctx.sample({'op': ops[-1], 'deliveries': impl[-1]}, limit=2)
+    close_cases(rp, ctx)
     # message sequences: forwarders are stateless -> each message behaves as if alone
     rng = ctx.rng
     for _ in range(ctx.n(100, 2000)):
@@ -381,6 +458,12 @@ def replay(ctx, data):
     i = data['input']
     if 'msgs' in i:
         return False
+    if 'close' in i:
+        a = i['close']
+        published, got, quiet = run_close(rp, a['nsides'], a['closer'], a['terminate'])
+        bad = close_monitor(a['nsides'], a['closer'], published, got, quiet)
+        print('observed: published', [m.get('cmd') for m in published], 'received', {k: [x.get('cmd') for x in v] for k, v in got.items()}, bad)
+        return not bad
     if 'rpc' in i:
         a = i['rpc']
         got, quiet, published, val = run_rpc(rp, a['nsides'], a['r'], a['h'], a['req_fwd'])
